@@ -40,6 +40,8 @@ class EarlierCallMatters(Exception):
 def _judge(res, lists, W, N, K, lens):
     front = (W - 1) // 2
     back = W - 1 - front
+    if not isinstance(lists, list) or not all(isinstance(x, (list, np.ndarray)) for x in lists):
+        return 'point-labels-is-not-a-list-of-label-lists'
     if len(lists) != len(lens):
         return 'wrong-number-of-label-lists'
     for lab, L in zip(lists, lens):
@@ -98,7 +100,7 @@ def replay(w):
                     'observed': {'raised': repr(exc), 'lens': n['lens'], 'W': n['W'], 'W_first': n.get('W_first')}}
         sig = _judge(*r)
         return {'reproduced': sig is not None, 'signature': sig,
-                'observed': {'lens': r[5], 'got_lengths': [len(x) for x in r[1]], 'n_mrf': len(r[0].markov_random_fields),
+                'observed': {'lens': r[5], 'got_lengths': [len(x) if hasattr(x, '__len__') else repr(x) for x in r[1]], 'n_mrf': len(r[0].markov_random_fields),
                              'num_clusters': int(r[0].num_clusters), 'final_labels': n['round_labels'][-1]}}
     # small sizes cannot always be fitted for real (a cluster may come out empty); grow every
     # series by the same amount until the run completes: margins and lengths scale with it
@@ -116,8 +118,8 @@ def replay(w):
             continue
         sig = _judge(*r)
         return {'reproduced': sig is not None, 'signature': sig,
-                'observed': {'lens': m['lens'], 'got_lengths': [len(x) for x in r[1]],
-                             'heads': [[int(v) for v in x[:int(n['W'])]] for x in r[1]]}}
+                'observed': {'lens': m['lens'], 'got_lengths': [len(x) if hasattr(x, '__len__') else repr(x) for x in r[1]],
+                             'heads': [[int(v) for v in x[:int(n['W'])]] if hasattr(x, '__len__') else repr(x) for x in r[1]]}}
     return {'reproduced': False, 'signature': None, 'observed': {'no_completed_run': last}}
 
 
